@@ -20,6 +20,34 @@ package util
 //@   ensures {ipv6} len(ip) == 16 && !(ip[0] == 0 && ip[1] == 0 && ip[2] == 0 && ip[3] == 0 && ip[4] == 0 && ip[5] == 0 && ip[6] == 0 && ip[7] == 0 && ip[8] == 0 && ip[9] == 0 && ip[10] == 0xff && ip[11] == 0xff) ==> r == ulaFirst(ip[0])
 //@   ensures {other-lengths} len(ip) != 4 && len(ip) != 16 ==> !r
 //
+// StripLocalAddresses (C08). What a candidate line parses to (candOK/candType/candAddr) and what an address text
+// parses to (validIP/ipByte/unspecIP/loopIP) are uninterpreted functions of the text (prelude/pion.spec, net.spec);
+// localSrc ties the decision to IsLocal's contract above through the 16 bytes net.ParseIP returns.
+//@ pred mapped4(s string) = ipByte(s,0) == 0 && ipByte(s,1) == 0 && ipByte(s,2) == 0 && ipByte(s,3) == 0 && ipByte(s,4) == 0 && ipByte(s,5) == 0 && ipByte(s,6) == 0 && ipByte(s,7) == 0 && ipByte(s,8) == 0 && ipByte(s,9) == 0 && ipByte(s,10) == 0xff && ipByte(s,11) == 0xff
+//@ pred localSrc(s string) = ite(mapped4(s), v4local(ipByte(s,12), ipByte(s,13)), ulaFirst(ipByte(s,0)))
+// dropAttr: the attribute is a host candidate whose address is private, CGN, link-local, unique-local, loopback or unspecified
+//@ pred dropAttr(k string, v string) = k == "candidate" && candOK(v) && candType(v) == 1 && validIP(candAddr(v)) && (localSrc(candAddr(v)) || unspecIP(candAddr(v)) || loopIP(candAddr(v)))
+// kept(s, n): how many of the first n attributes of s survive. All reads of the ORIGINAL description go through
+// atloop(1, ...): the heap as pion's parser left it (the loops only ever write freshly allocated attribute arrays).
+//@ spec func heap rec kept(s []sdp.Attribute, n int) int = ite(n <= 0, 0, kept(s, n-1) + ite(dropAttr(s[n-1].Key, s[n-1].Value), 0, 1))
+// unchangedAttrs(m): section m still has its original attributes
+//@ pred unchangedAttrs(m *sdp.MediaDescription) = len(m.Attributes) == len(atloop(1, m.Attributes)) && (forall j int :: 0 <= j && j < len(m.Attributes) ==> m.Attributes[j].Key == atloop(1, m.Attributes[j].Key) && m.Attributes[j].Value == atloop(1, m.Attributes[j].Value))
+// filteredUpTo(out, m, n): out is exactly the surviving ones among the first n original attributes of section m, in
+// order: none that should be dropped is present (len(out) == kept), every other one sits at its place in the sequence.
+//@ pred filteredUpTo(out []sdp.Attribute, m *sdp.MediaDescription, n int) = len(out) == atloop(1, kept(m.Attributes, n)) && (forall j int :: 0 <= j && j < n && !atloop(1, dropAttr(m.Attributes[j].Key, m.Attributes[j].Value)) ==> 0 <= atloop(1, kept(m.Attributes, j)) && atloop(1, kept(m.Attributes, j)) < len(out) && out[atloop(1, kept(m.Attributes, j))].Key == atloop(1, m.Attributes[j].Key) && out[atloop(1, kept(m.Attributes, j))].Value == atloop(1, m.Attributes[j].Value))
+// sections(lo, hi, done): the sections below `done` are filtered, the others untouched; the list itself is unchanged
+//@ pred sectionsOK(d *sdp.SessionDescription, done int) = len(d.MediaDescriptions) == len(atloop(1, d.MediaDescriptions)) && (forall p int :: 0 <= p && p < len(d.MediaDescriptions) ==> d.MediaDescriptions[p] == atloop(1, d.MediaDescriptions[p]) && d.MediaDescriptions[p] != nil) && (forall p int, q int :: 0 <= p && p < q && q < len(d.MediaDescriptions) ==> d.MediaDescriptions[p] != d.MediaDescriptions[q]) && (forall p int :: 0 <= p && p < done && p < len(d.MediaDescriptions) ==> filteredUpTo(d.MediaDescriptions[p].Attributes, d.MediaDescriptions[p], len(atloop(1, d.MediaDescriptions[p].Attributes)))) && (forall p int :: done <= p && p < len(d.MediaDescriptions) ==> unchangedAttrs(d.MediaDescriptions[p]))
+//
+//@ func StripLocalAddresses(str string) (r string)
+//@   props C08
+//@   model int
+//@   strings opaque
+//@   loop 1 invariant {sections} sectionsOK(&desc, rangeindex#1 + 1)
+//@   loop 2 invariant {sections} sectionsOK(&desc, rangeindex#1) && m == desc.MediaDescriptions[rangeindex#1]
+//@   loop 2 invariant {filter-prefix} rangeindex#2 + 1 <= len(m.Attributes) && filteredUpTo(attrs, m, rangeindex#2 + 1)
+//@   loop 2 invariant {own-array} forall p int :: 0 <= p && p < len(desc.MediaDescriptions) ==> base(desc.MediaDescriptions[p].Attributes) != base(attrs)
+//@   at call Marshal assert {every-section-filtered} sectionsOK(&desc, len(desc.MediaDescriptions))
+//
 // Untrusted session descriptions (C13): for ANY string received from the other side the function returns a value or
 // an error; the safety sweep (type assertions, map/index accesses, nil dereferences) is on, and encoding/json may put
 // a value of any JSON type under any key.
